@@ -32,7 +32,15 @@ def install(reg, src):
     def dispatch_apply(c, name):
         """Recording stub for a solver front end called from Problem.solve."""
         ip = c.ip
-        ip.path.event("dispatch", {"callee": name, "args": list(c.actual_args), "kwargs": dict(c.actual_kwargs)})
+        P0 = c.actual_args[0] if c.actual_args else c.actual_kwargs.get("problem")
+        snap = None
+        if isinstance(P0, (Obj, Opaque)):
+            # the per-problem caches as they are when the front end takes over (Problem.solve itself must not have written them)
+            snap = {}
+            for f_, srt in (("_variables", sym.Ref), ("_solver_cache", sym.Ref), ("_lp_cache", sym.Ref), ("_is_linear_cache", sym.B)):
+                snap[f_] = (z3.simplify(z3.Select(st(ip, f"Problem.{f_}!none", sym.B), P0.ref)),
+                            z3.simplify(z3.Select(st(ip, f"Problem.{f_}", srt), P0.ref)))
+        ip.path.event("dispatch", {"callee": name, "args": list(c.actual_args), "kwargs": dict(c.actual_kwargs), "caches": snap})
         from .problem_c import havoc_fields
         P = c.actual_args[0] if c.actual_args else c.actual_kwargs.get("problem")
         if isinstance(P, (Obj, Opaque)):
@@ -84,6 +92,10 @@ def install(reg, src):
         for pre in getattr(reg, "solve_entry_invariants", []):
             pre(c, sp, P, s0)
         ip.path.ghost["dispatch"] = True
+        entry_caches = {}
+        for f_, srt in (("_variables", sym.Ref), ("_solver_cache", sym.Ref), ("_lp_cache", sym.Ref), ("_is_linear_cache", sym.B)):
+            entry_caches[f_] = (z3.simplify(z3.Select(st(ip, f"Problem.{f_}!none", sym.B), P.ref)),
+                                z3.simplify(z3.Select(st(ip, f"Problem.{f_}", srt), P.ref)))
         c.raises("NoObjectiveError", when=s0.obj_none, name="raises NoObjectiveError iff no objective")
         c.may_raise_anything()          # whatever the front end raises reaches the caller
         c.returns(T.obj("Solution", exact=True))
@@ -150,4 +162,13 @@ def install(reg, src):
                 path.oblige(oid("the front end's Solution is returned unchanged"), z3.BoolVal(any(val is r for r in rs)), kind="post", props=P_ + ["C06"])
             now = PState(ip, P)
             path.oblige(oid("Problem.solve itself leaves the model untouched"), now.same_model(s0), kind="frame", props=["C13", "C20"])
+            # ... and the caches: when the front end takes over they are as on entry, except for the linearity cache, which only
+            # _is_linear_problem() may have filled (with the linearity of the model: its contract) on the `auto` route
+            if d.get("caches"):
+                for f_, (n0, v0) in entry_caches.items():
+                    n1, v1 = d["caches"][f_]
+                    if f_ == "_is_linear_cache" and m == "auto":
+                        continue
+                    path.oblige(oid(f"Problem.solve itself does not write the cache {f_}"),
+                                z3.And(n1 == n0, z3.Implies(z3.Not(n0), v1 == v0)), kind="frame", props=["C13", "C20"])
         c.on_exit.append(on_exit)
